@@ -614,16 +614,18 @@ impl<'a> Parser<'a> {
                 match &next_token.token {
                     Token::Word(w) => match w.keyword {
                         Keyword::WITH => {
-                            read_lock = self.parse_keywords(&[Keyword::READ, Keyword::LOCK]);
+                            self.expect_keywords(&[Keyword::READ, Keyword::LOCK])?;
+                            read_lock = true;
                         }
                         Keyword::FOR => {
-                            export = self.parse_keyword(Keyword::EXPORT);
+                            self.expect_keyword(Keyword::EXPORT)?;
+                            export = true;
                         }
-                        Keyword::NoKeyword => {
+                        _ if tables.is_empty() => {
                             self.prev_token();
                             tables = self.parse_comma_separated(|p| p.parse_object_name(false))?;
                         }
-                        _ => {}
+                        _ => return self.expected("WITH READ LOCK or FOR EXPORT", next_token),
                     },
                     _ => {
                         self.prev_token();
